@@ -29,7 +29,25 @@ def load_detector(detector: Detector, filename: str | Path) -> None:
             f" '{type(detector).__name__}', expected '{type(new_detector).__name__}'"
         )
 
-    detector = new_detector
+    if detector.geometry.shape != new_detector.geometry.shape:
+        raise ValueError(
+            f"Wrong detector shape from 'filename':'{filename}'. Got shape:"
+            f" {new_detector.geometry.shape}, expected {detector.geometry.shape}"
+        )
+
+    # Replace the data of the running detector
+    for name in (
+        "_scene",
+        "_photon",
+        "_charge",
+        "_pixel",
+        "_signal",
+        "_image",
+        "_phase",
+        "_data",
+    ):
+        if hasattr(new_detector, name):
+            setattr(detector, name, getattr(new_detector, name))
 
 
 def save_detector(detector: Detector, filename: str | Path) -> None:
